@@ -229,6 +229,55 @@ tunnel-group VPN-tunnel-1 general-attributes
  authentication-server-group LDAP1
 tunnel-group-map ca-map-1 10 VPN-tunnel-1
 `),
+		// lines the command table ignores inside MANAGED objects: the hand-made webvpn block of a group-policy (with the
+		// lines of its sub-sub-mode), pre-shared keys and isakmp keepalive of tunnel-groups; the rest of the objects differs
+		mk("ignored-lines-in-managed-objects", `
+access-list vpn-filter-DRC-0 extended permit ip host 10.3.4.1 10.1.1.0 255.255.255.0
+ip local pool pool1-DRC-0 10.3.4.8-10.3.4.15 mask 255.255.255.248
+group-policy VPN-group-1-DRC-0 internal
+group-policy VPN-group-1-DRC-0 attributes
+ address-pools value pool1-DRC-0
+ webvpn
+  anyconnect keep-installer installed
+  anyconnect profiles value VPN-PROFILE type user
+ vpn-filter value vpn-filter-DRC-0
+ vpn-idle-timeout 60
+crypto ca certificate map ca-map-1-DRC-0 10
+ subject-name attr ea co @sub1.example.com
+tunnel-group VPN-tunnel-1-DRC-0 type remote-access
+tunnel-group VPN-tunnel-1-DRC-0 general-attributes
+ default-group-policy VPN-group-1-DRC-0
+tunnel-group VPN-tunnel-1-DRC-0 ipsec-attributes
+ isakmp keepalive threshold 15 retry 3
+ trust-point TP1
+tunnel-group-map ca-map-1-DRC-0 10 VPN-tunnel-1-DRC-0
+tunnel-group 10.0.0.1 type ipsec-l2l
+tunnel-group 10.0.0.1 ipsec-attributes
+ ikev1 pre-shared-key *****
+ ikev2 local-authentication pre-shared-key *****
+ ikev2 remote-authentication pre-shared-key *****
+ peer-id-validate nocheck
+`, `
+access-list vpn-filter extended permit ip host 10.3.4.1 10.1.1.0 255.255.255.0
+access-list vpn-filter extended permit ip host 10.3.4.2 10.1.1.0 255.255.255.0
+ip local pool pool1 10.3.4.8-10.3.4.15 mask 255.255.255.248
+group-policy VPN-group-1 internal
+group-policy VPN-group-1 attributes
+ address-pools value pool1
+ vpn-filter value vpn-filter
+ vpn-idle-timeout 120
+crypto ca certificate map ca-map-1 10
+ subject-name attr ea co @sub1.example.com
+tunnel-group VPN-tunnel-1 type remote-access
+tunnel-group VPN-tunnel-1 general-attributes
+ default-group-policy VPN-group-1
+tunnel-group VPN-tunnel-1 ipsec-attributes
+ trust-point TP2
+tunnel-group-map ca-map-1 10 VPN-tunnel-1
+tunnel-group 10.0.0.1 type ipsec-l2l
+tunnel-group 10.0.0.1 ipsec-attributes
+ peer-id-validate req
+`),
 		// the target has no VPN part at all: everything is removed in an order the device accepts
 		mk("everything-removed", `
 access-list vpn-filter-DRC-0 extended permit ip host 10.3.4.1 10.1.1.0 255.255.255.0
